@@ -338,8 +338,11 @@ func (c *c13Checker) After(w *World, ev *Event) []Failure {
 		if !ok {
 			continue
 		}
-		if cur := w.Cur[id]; p.Key() != cur.Key() {
+		if cur := w.Cur[id]; p.Key() != cur.Key() || p.VE != cur.VE {
 			f, a, b := diffPrimary(p.Primary(), cur.Primary())
+			if f == "" && p.VE != cur.VE {
+				f, a, b = "ValidationErrors", p.VE, cur.VE
+			}
 			if f == "" {
 				f, a, b = "derived accessors", p.Key(), cur.Key()
 			}
